@@ -273,11 +273,15 @@ class SiteScan:
                 if ga == ("is", x, "Some") and go is True:
                     return True, ""
             # last_mut().unwrap() / last().unwrap() / first().unwrap() under a non-empty test of the same vector
-            if x[0] == "call" and x[1].split("::")[-1] in ("last", "last_mut", "first", "first_mut") and x[2]:
+            if x[0] == "call" and x[1].split("::")[-1] in ("last", "last_mut", "first", "first_mut", "pop") and x[2]:
                 v = x[2][0]
                 e0 = mk_eq(("len", v), const("int", 0))
                 if g.get(e0) is False:
                     return True, ""
+                # ... or under a test that the vector has exactly / at least k >= 1 elements
+                for ga, go in g.items():
+                    if go is True and ga[0] == "eq" and any(strip_ver(show(y)) == strip_ver(show(("len", v))) for y in ga[1:]) and any(y[0] == "const" and isinstance(y[2], int) and y[2] >= 1 for y in ga[1:]):
+                        return True, ""
             return False, "unwrap of %s without a dominating Some/Ok test" % show(x)[:80]
         if kind == "arith":
             if any(tainted(a) for a in args) or any("closure" in show(a) or "Iterator::map" in show(a) for a in args):
@@ -310,6 +314,13 @@ class SiteScan:
                             return True, ""
             if m == "insert":
                 if i == ("const", "int", 0):
+                    return True, ""
+                # at an index that was tested to be below the vector's length (an element was read there), in a body
+                # in which such vectors only grow
+                if self._grow_only(fn) and any(strip_ver(show(ga)) == strip_ver(show(("lt", i, ("len", v)))) and go is True for ga, go in g.items()):
+                    return True, ""
+                # at an index delivered by the range 0..len(v) of the same vector
+                if self._grow_only(fn) and re.match(r"^(?:<[^()]*>::)?next\(Range::Range\{start: \d+, end: len\(%s\)\}\) as Some\.0$" % re.escape(strip_ver(show(v))), strip_ver(show(i))):
                     return True, ""
                 # insert at `position(..)` of an element of the same vector, or at its length when there is none
                 si, sv = strip_ver(show(i)), strip_ver(show(v))
@@ -443,6 +454,14 @@ def panic_inventory(ctx):
                 groups.setdefault(key, []).append((b, bb, s))
     for key, lst in sorted(groups.items()):
         a = audit.get(key)
+        if a is None and "::{closure#" in key.split("|", 1)[0]:
+            # the audited site, moved into a closure of the same function (`cond.then(|| ..)`, `map_or_else(..)`): its
+            # operands are the function's own expressions seen through the captures, and the audited reason is about
+            # those expressions
+            fn_, shape = key.split("|", 1)
+            k2 = "%s|%s" % (re.sub(r"(::\{closure#\d+\})+$", "", fn_), re.sub(r"\^+a(\d)", r"a\1", shape))
+            if k2 in audit and k2 not in groups:
+                a = audit[k2]
         if a is None:
             # the same audited site in another, equivalent shape (hand-written, one reason each)
             for alt in ALT_SHAPES:
